@@ -195,3 +195,47 @@ Proof.
   - right. vm_compute. reflexivity.
   - cbn [braced_name p_last removelast]. constructor; [vm_compute; reflexivity|constructor].
 Qed.
+
+(* ---- the no-first-name form with general tokens *)
+Definition expressible0G (p : person) : Prop :=
+  p_first p = [] /\ p_middle p = [] /\ p_lineage p = [] /\
+  Forall gtok (p_prelast p) /\ Forall gtok (p_last p) /\
+  ((p_prelast p = [] /\ exists z b, p_last p = [z] /\ is_von_name z = Ok b) \/
+   (isvon (hd [] (p_prelast p)) /\ isvon (last (p_prelast p) []) /\ p_prelast p <> [] /\ p_last p <> [] /\
+    Forall nonvon (removelast (p_last p)))).
+
+Lemma bibtex_name_roundtrip0G_pf p : expressible0G p -> person_of_string (format_name p) = Ok (p, false).
+Proof.
+  intros (Hf & Hm & Hj & Hv & Hl & Hc).
+  assert (Hne : p_last p <> []) by (destruct Hc as [(_ & z & b & -> & _)|(_ & _ & _ & H & _)]; [discriminate|exact H]).
+  assert (Hvl : Forall gtok (p_prelast p ++ p_last p)) by (apply Forall_app; auto).
+  assert (Nvl : p_prelast p ++ p_last p <> []) by (destruct (p_prelast p); [exact Hne|discriminate]).
+  assert (FN : format_name p = part_text (p_prelast p ++ p_last p)).
+  { unfold format_name. rewrite Hf, Hm, Hj. change (part_text []) with (@nil char). cbn [nonempty orb].
+    assert (N1 : nonempty (part_text (p_last p)) = true).
+    { destruct (part_text (p_last p)) eqn:E; [exfalso; eapply ptextG_nonnil; [exact Hl|exact Hne|exact E]|reflexivity]. }
+    rewrite N1. now apply jn2G. }
+  rewrite FN. set (N := part_text (p_prelast p ++ p_last p)).
+  destruct (ptextG_props _ Hvl Nvl) as (S1 & S2 & S3 & S4). fold N in S1, S2, S3, S4.
+  assert (NN : N <> []) by (now apply ptextG_nonnil).
+  assert (CO : split_tex_comma N = Ok [N]).
+  { rewrite comma_split_spec_pf by exact NN. unfold spec_comma_pieces.
+    pose proof (spec_cp_cjoin [] (Forall_nil _) N [] S3 S4) as R. cbn [cjoin flat_map] in R. rewrite app_nil_r in R. rewrite R.
+    cbn [rev app map]. now rewrite strip_nice. }
+  unfold person_of_string, person_init. rewrite (strip_nice N S1 S2).
+  destruct N as [|c0 r0] eqn:EN; [congruence|]. rewrite <- EN in *. clear EN c0 r0.
+  unfold parse_string. rewrite CO. cbn [bind length Nat.ltb Nat.leb]. cbv iota.
+  assert (GG : Forall good_tok' (p_prelast p ++ p_last p)) by (eapply Forall_impl; [|exact Hvl]; apply gtok_good).
+  unfold N at 1. rewrite (split_space_good _ GG). cbn [bind].
+  rewrite split_space_nil'. cbn [bind].
+  destruct Hc as [(Ev & z & b & El & Hz)|(Hh & Hlast & Hvne & _ & Hnv)].
+  - rewrite Ev, El. cbn [app]. unfold split_at. cbn [find_pos]. rewrite Hz. cbn [bind].
+    destruct b; cbn [bind find_pos firstn skipn removelast last process_first_middle];
+      (unfold process_von_last; cbn [removelast last app bind fst snd empty_person p_first p_middle p_prelast p_last p_lineage];
+       destruct p; cbn in *; subst; reflexivity).
+  - destruct (p_prelast p) as [|x v'] eqn:EV; [congruence|]. cbn [hd] in Hh. unfold isvon in Hh.
+    unfold split_at. cbn [app find_pos]. rewrite Hh. cbn [bind firstn skipn process_first_middle].
+    change (x :: v' ++ p_last p) with ((x :: v') ++ p_last p).
+    pose proof (von_last_ok (x :: v') (p_last p) Hne (or_intror Hlast) Hnv) as VL. unfold str, char in *. rewrite VL. cbn [bind].
+    rewrite !app_nil_r. destruct p; cbn in *; subst; reflexivity.
+Qed.
